@@ -964,3 +964,316 @@ example :
       if n = "array" then { kind := 1, ndim := 2, dcls := 3, shape := [40, 40], tnum := 12, flags := 7 } else
       if n = "points_arr" then { kind := 1, ndim := 2, dcls := 3, shape := [1, 5], tnum := 12, flags := 7 } else {}) = true := by
   decide
+
+
+/-! ## Round 4 — Labeled: compositions with the C10 theorems about `_labeled.cpp` (label union-find, borders, slic, is_same_labeling), `_center_of_mass` label path, `_bbox` labeled n-D path -/
+section Round4Labeled
+-- (theorems of this package go between this line and the `end`)
+
+/-- a row of `Generated.indexGuardTable`: every index expression of the access has an atom `x >= 0` among the tests that dominate it -/
+def idxLowerGuarded (r : String × String × List String × List String × List (String × String × String)) : Bool :=
+  r.2.2.1.all fun x => r.2.2.2.2.any fun a => a.1 == "geZero" && a.2.1 == x
+
+/-- … and an atom `x < bound` -/
+def idxUpperGuarded (bound : String) (r : String × String × List String × List String × List (String × String × String)) : Bool :=
+  r.2.2.1.all fun x => r.2.2.2.2.any fun a => a.1 == "lt" && a.2.1 == x && a.2.2 == bound
+
+/-- **C11+C10 (labeled_sum / labeled_max / labeled_min: `labeled_foldl`) — the in-loop test is part of the tie.** The native guards of
+`py_labeled_*` (extracted by guards.py from the front of the entry point) cannot keep a DATA-dependent index inside its table; what
+does is the test inside the loop of `labeled_foldl`. `translator/allocs.py: extract_index_guards` extracts from the current source
+the tests that dominate the store `result[…]`: the row of `Generated.indexGuardTable` for `labeled_foldl` has, for its index
+expression, both `x >= 0` and `x < maxlabel` — and behind exactly that test (`C10_labeled_foldl_in_bounds`) the access is in range
+for EVERY label value (negative, e.g. a uint32/int64 label that wrapped to `INT_MIN` when narrowed to C int, or too large: skipped).
+A kernel that loses the lower-bound test (seeded change C11-r4m1) changes the generated row and this theorem no longer checks. -/
+theorem C11_labeled_fold_safe (maxi label : Int) :
+    ((Generated.indexGuardTable.find? fun r => r.1 == "_labeled.cpp" && r.2.1 == "labeled_foldl").map
+        fun r => idxLowerGuarded r && idxUpperGuarded "maxlabel" r) = some true ∧
+    ∀ a ∈ Mahotas.C10.foldlAccesses maxi label, 0 ≤ a.i ∧ a.i < a.size :=
+  ⟨by decide +kernel, C10_labeled_foldl_in_bounds maxi label⟩
+
+/-- the row a kernel without the lower-bound test would generate (what the seeded change produces) is rejected -/
+example : (idxLowerGuarded ("_labeled.cpp", "labeled_foldl", ["label"], ["*literator"], [("lt", "label", "maxlabel")])) = false ∧
+    Mahotas.C10.foldlAccesses 4 (-2147483648) = [] := by decide
+
+/-- **C11+C10 (slic).** If the guards of the wrapper `segmentation.slic` (as extracted) pass on an ndarray and integer `spacer`,
+`max_iters`, then (`C11_slic_guards_imply_pre`) the array is `(h, w, 3)`, `spacer ≥ 1`, a seed exists on both axes; hence
+(`C10_slic_first_iteration_covers`) the seeding loops place at least one centroid, all inside the image, and the windows of the first
+iteration cover every pixel — no pixel keeps a label that is not a centroid index — and (`C10_slic_window_in_bounds`) every window of
+every later iteration, for any centroid position inside the image, is in bounds and its `!=` loops end. -/
+theorem C11_slic_safe (env : Env)
+    (ha : (env "array").kind = 1) (hs : (env "spacer").kind = 2) (hm : (env "max_iters").kind = 2)
+    (hnd : (env "array").wf) (h : passes Generated.guards_segmentation_slic env = true) :
+    ∃ S ny nx : Nat, (S : Int) = (env "spacer").ival ∧ ny = (env "array").shape.getD 0 0 ∧ nx = (env "array").shape.getD 1 0 ∧
+      Mahotas.C10Slic.covered S ny nx = true ∧ 1 ≤ (Mahotas.C10Slic.seedCentroids S ny nx).length ∧
+      (∀ c ∈ Mahotas.C10Slic.seedCentroids S ny nx, c.1 < ny ∧ c.2 < nx) ∧
+      ∀ cy cx : Int, 0 ≤ cy → cy < ny → 0 ≤ cx → cx < nx →
+        ∃ l, Mahotas.C10Slic.windowPositions ny nx S cy cx = some l ∧ Mahotas.C10Slic.inN ((ny : Int) * nx) l = true := by
+  have hpre := C11_slic_guards_imply_pre env ha hs hm hnd h
+  unfold PreSlic at hpre
+  obtain ⟨-, -, hS, -, hy, hx⟩ := hpre
+  refine ⟨(env "spacer").ival.toNat, _, _, by omega, rfl, rfl, ?_⟩
+  have hy' : (env "spacer").ival.toNat / 2 < (env "array").shape.getD 0 0 := by omega
+  have hx' : (env "spacer").ival.toNat / 2 < (env "array").shape.getD 1 0 := by omega
+  obtain ⟨c1, c2, c3⟩ := C10_slic_first_iteration_covers _ _ _ (by omega) hy' hx'
+  refine ⟨c1, c2, c3, ?_⟩
+  intro cy cx h1 h2 h3 h4
+  obtain ⟨l, e, hl, -, -⟩ := C10_slic_window_in_bounds _ _ ((env "spacer").ival.toNat : Int) cy cx (by omega) h1 h2 h3 h4
+  exact ⟨l, e, hl⟩
+
+/-- **C11+C10 (label, the union–find array).** With the links of `labeled.label` on an ndarray (the native `array` is the
+`_get_output` buffer of the image's shape, written `output[:] = (array != 0)`), for EVERY content `data` of that buffer, every list
+of neighbour offsets and both border treatments: the filter-iterator table is in bounds (`C11_label_safe`) and every index
+`find` / `join` / `compress` dereference in the label buffer is inside it, no recursion deeper than `N + 1`
+(`C10_label_union_find_in_bounds` needs no guard at all: the invariant is established by the kernel's own initialisation loop). -/
+theorem C11_label_union_find_safe (envW envN : Env) (m : Mode)
+    (hk : (envW "array").kind = 1)
+    (hl : Linked Generated.lookupTables Generated.links_labeled_label__labeled_label envW envN = true)
+    (data : List Int) (offs : List (List Int)) :
+    (envN "array").shape = (envW "array").shape ∧
+    Mahotas.C10Labeled.inRange data.length
+      (Mahotas.C10Labeled.labelUF m (envN "array").shape data offs (data.length + 1)).2.1 = true ∧
+    (Mahotas.C10Labeled.labelUF m (envN "array").shape data offs (data.length + 1)).2.2 = true := by
+  obtain ⟨hs, -, -⟩ := (C11_label_guards_imply_pre envW envN).2 hk hl
+  obtain ⟨h1, h2, -, -⟩ := C10_label_union_find_in_bounds m (envN "array").shape data offs
+  exact ⟨hs, h1, h2⟩
+
+end Round4Labeled
+-- ---------------------------------------------------------------------------------------------------------
+
+
+/-! ## Round 4 — Flood: compositions with the C10 theorems about `_morph.cpp` flood/queue kernels (close_holes, regmin_max, locmin_max, distance_multi position_queue, subm, disk_2d, majority_filter) and the `_thin` full pass -/
+section Round4Flood
+-- (theorems of this package go between this line and the `end`)
+
+/-- **C11+C10 (close_holes).** If the guard of the wrapper `morph.close_holes` (as extracted: `ref.ndim != 2` raises) passes on
+a well-formed ndarray, the native kernel runs on a matrix: every position of the border seeding loops is inside it
+(`C10_close_holes_seeding_in_bounds`: the odometer is only correct up to rank 2 — the guard is what keeps the kernel inside
+its domain), and for every neighbourhood, availability map and stack the flood dereferences only positions inside the array
+and drains its stack within `stack + available` pops (`C10_stack_flood_in_bounds`). -/
+theorem C11_close_holes_safe (env : Env) (hk : (env "ref").kind = 1) (wf : (env "ref").wf)
+    (h : passes Generated.guards_morph_close_holes env = true) :
+    (∃ n0 n1 : Nat, (env "ref").shape = [n0, n1] ∧
+      Mahotas.C10Flood.pAllOk (Mahotas.C10Flood.chSeedAccesses (env "ref").shape) = true) ∧
+    ∀ (nb : List (List Int)) (fuel : Nat) (av : Array Bool) (st : List (List Int)),
+      st.length + Mahotas.C10Flood.cntTrue av ≤ fuel →
+        Mahotas.C10Flood.pAllOk (Mahotas.C10Flood.floodRun (env "ref").shape nb fuel av st).1 = true ∧
+        (Mahotas.C10Flood.floodRun (env "ref").shape nb fuel av st).2.1 = true := by
+  have h2 : (env "ref").ndim = 2 := (C11_2d_guards_imply_pre env).2.1 hk h
+  obtain ⟨n0, n1, e⟩ := shape_of_len_two (env "ref").shape (by unfold Desc.wf at wf; omega)
+  refine ⟨⟨n0, n1, e, by rw [e]; exact C10_close_holes_seeding_in_bounds.2.1 n0 n1⟩, ?_⟩
+  intro nb fuel av st hf
+  have := C10_stack_flood_in_bounds (env "ref").shape nb fuel av st hf
+  exact ⟨this.1, this.2.1⟩
+
+/-- non-vacuity: a 4×5 image passes the guard; a 1×3×3 one is rejected — and would indeed be left by the seeding loops -/
+example :
+    passes Generated.guards_morph_close_holes (fun n => if n = "ref" then { kind := 1, ndim := 2, shape := [4, 5] } else {}) = true ∧
+    passes Generated.guards_morph_close_holes (fun n => if n = "ref" then { kind := 1, ndim := 3, shape := [1, 3, 3] } else {}) = false ∧
+    Mahotas.C10Flood.pAllOk (Mahotas.C10Flood.chSeedAccesses [1, 3, 3]) = false := by decide
+
+end Round4Flood
+-- ---------------------------------------------------------------------------------------------------------
+
+
+/-! ## Round 4 — Feat: compositions with the C10 theorems about feature kernels (`_zernike` znl, SURF `compute_dominant_angle`, `_texture`, `_convex` entry point, `_histogram` otsu, `_interpolate` remaining pieces) -/
+section Round4Feat
+-- (theorems of this package go between this line and the `end`)
+
+/-- **C11+C10 (cooccurence) — both matrix indices are tested before the access.** `++res.at(val, val2)` indexes the result by two pixel
+VALUES; the tests that dominate it in the current source (`Generated.indexGuardTable`, row `cooccurence`) contain `val >= 0` AND
+`val2 >= 0` (the negation of `if (val < 0 || val2 < 0) throw …`): a negative grey level — of the centre OR of the neighbour — raises
+before it is used as an index, and then (`C10_cooccurence_in_bounds`) for values up to the maximum the wrapper sized the matrix for
+both indices are inside it. A kernel that tests the centre only (seeded change C11-r4m2: a neighbour is used as an index before it
+has been the centre) changes the generated row and this theorem no longer checks. -/
+theorem C11_cooccurence_index_guarded (m0 m1 maxv v v2 : Int) (hv : v ≤ maxv) (hv2 : v2 ≤ maxv) (hm0 : maxv < m0) (hm1 : maxv < m1) :
+    ((Generated.indexGuardTable.find? fun r => r.1 == "_texture.cpp" && r.2.1 == "cooccurence").map
+        fun r => idxLowerGuarded r && decide (r.2.2.1.length = 2)) = some true ∧
+    ∀ a ∈ Mahotas.C10.coocAccesses m0 m1 v v2, 0 ≤ a.i ∧ a.i < a.size :=
+  ⟨by decide +kernel, C10_cooccurence_in_bounds m0 m1 maxv v v2 hv hv2 hm0 hm1⟩
+
+example : idxLowerGuarded ("_texture.cpp", "cooccurence", ["val", "val2"], ["*iter", "0"], [("geZero", "val", "")]) = false ∧
+    Mahotas.C10.coocAccesses 4 4 2 (-1073741824) = [] := by decide
+
+/-- **C11+C10 (otsu).** If the guards of the native `py_otsu` pass, the histogram is a C-contiguous `double` array, read through a
+raw pointer over `n = SIZE(histogram)` cells — and for every `n` and every outcome of the floating-point tests all accesses of
+`hist`, `nB`, `nO` are in bounds and the threshold returned is a bin (`C10_otsu_in_bounds`; no further guard is needed). -/
+theorem C11_otsu_safe (env : Env) (h : npasses Generated.nativeGuards_histogram_otsu env = true) (hk : (env "histogram").kind = 1)
+    (n : Int) (hz : Bool) (nbz noz better : Nat → Bool) :
+    (canonT (env "histogram").tnum = canonT 12 ∧ (env "histogram").isCArray = true) ∧
+    Mahotas.C10Feat.allOk (Mahotas.C10Feat.otsuRun n hz nbz noz better).1 = true := by
+  simp [Generated.nativeGuards_histogram_otsu, npasses, NAtom.rejects, isArr, hk] at h
+  exact ⟨⟨by simpa using h.1, h.2⟩, (C10_otsu_in_bounds n hz nbz noz better).1⟩
+
+/-- **C11+C10 (subm).** If the guards of the native `py_subm` pass on two ndarrays, they have the same shape, so the paired scan
+`*ita … *itb` over `a.size()` elements stays inside both (`C10_pair_scan_in_bounds`). -/
+theorem C11_subm_safe (env : Env) (ha : (env "a").kind = 1) (hb : (env "b").kind = 1)
+    (h : npasses Generated.nativeGuards_morph_subm env = true) :
+    (env "a").shape = (env "b").shape ∧
+    Mahotas.C10Feat.allOk (Mahotas.C10Feat.pairScan (shapeSize (env "a").shape) (shapeSize (env "b").shape) none) = true := by
+  simp [Generated.nativeGuards_morph_subm, npasses, NAtom.rejects, isArr, ha, hb] at h
+  have hs : (env "a").shape = (env "b").shape := h.1
+  exact ⟨hs, (C10_pair_scan_in_bounds _ _).1.mpr (by rw [hs])⟩
+
+/-- **C11+C10 (is_same_labeling) — partial.** The native guards make both arguments C-contiguous `int` arrays but do NOT compare
+their sizes (second conjunct: a 4-element and a 3-element array pass every native guard, and the complete scan would read
+`b[3]`). What keeps the kernel inside the second buffer is the wrapper's `if labeled0.shape != labeled1.shape: return False`, which
+is a `return`, not a raising guard, hence not in the extracted guard list: with equal shapes (hypothesis) every prefix of the scan is
+in bounds. MISSING for a full corollary: extraction of early `return` statements as guards. The `featreal` cases run the public
+function on arrays of different sizes under ASan. -/
+theorem C11_is_same_labeling_safe_partial (env : Env) (h0 : (env "labeled0").kind = 1) (h1 : (env "labeled1").kind = 1)
+    (h : npasses Generated.nativeGuards_labeled_is_same_labeling env = true)
+    (hs : (env "labeled0").shape = (env "labeled1").shape) (stop : Option Nat) :
+    ((env "labeled0").isCArray = true ∧ (env "labeled1").isCArray = true ∧
+      Mahotas.C10Feat.allOk (Mahotas.C10Feat.pairScan (shapeSize (env "labeled0").shape) (shapeSize (env "labeled1").shape) stop) = true) ∧
+    (npasses Generated.nativeGuards_labeled_is_same_labeling (fun n =>
+        if n = "labeled0" then { kind := 1, ndim := 1, shape := [4], tnum := 5, flags := 7 } else
+        if n = "labeled1" then { kind := 1, ndim := 1, shape := [3], tnum := 5, flags := 7 } else {}) = true ∧
+      Mahotas.C10Feat.allOk (Mahotas.C10Feat.pairScan 4 3 none) = false) := by
+  simp [Generated.nativeGuards_labeled_is_same_labeling, npasses, NAtom.rejects, isArr, h0, h1] at h
+  refine ⟨⟨h.2.2.1, h.2.2.2, (C10_pair_scan_in_bounds _ _).2 (by rw [hs]) stop⟩, by decide⟩
+
+/-- **C11+C10 (disk_2d).** If the guards of the native `py_disk_2d` pass on a well-formed ndarray, it is a C-contiguous 2-D bool
+array and `radius ≥ 0`; every store of the kernel is inside it (`C10_disk_2d_in_bounds`, which needs none of this except the
+rank: the C-array guard is what makes the running pointer `iter` address cell `x0*N1 + x1`). -/
+theorem C11_disk_2d_safe (env : Env) (hk : (env "array").kind = 1) (hr : (env "radius").kind = 2) (wf : (env "array").wf)
+    (h : npasses Generated.nativeGuards_morph_disk_2d env = true) :
+    ∃ n0 n1 : Nat, (env "array").shape = [n0, n1] ∧ (env "array").isCArray = true ∧ 0 ≤ (env "radius").ival ∧
+      Mahotas.C10Feat.allOk (Mahotas.C10Feat.diskStores n0 n1 (env "radius").ival) = true := by
+  simp [Generated.nativeGuards_morph_disk_2d, npasses, NAtom.rejects, isArr, isInt, hk, hr] at h
+  obtain ⟨n0, n1, e⟩ := shape_of_len_two (env "array").shape (by unfold Desc.wf at wf; omega)
+  exact ⟨n0, n1, e, h.2.1, by omega, C10_disk_2d_in_bounds n0 n1 _⟩
+
+/-- **C11+C10 (zernike).** For every `degree < 100000` the loops of `zernike_moments` call `_zernike.znl(D, A, P, n, l)` only with
+pairs for which (`C11_zernike_loop_pre`) `0 ≤ l ≤ n`; then, for arrays `A`, `P` with at least as many elements as `D` (the wrapper
+passes three arrays cut by one mask `k`; the links are `other`, so this is a hypothesis), every `fact` recursion comes back and
+reads inside the factorial table, every `g_m[m]`, `D[i]`, `A[i]`, `P[i]` is in bounds (`C10_znl_in_bounds`). -/
+theorem C11_znl_safe (degree : Int) (hd : degree < 100000) (nd na np : Nat) (ha : nd ≤ na) (hp : nd ≤ np) :
+    ∀ nl ∈ znlPairs degree,
+      Mahotas.C10Feat.allOk (Mahotas.C10Feat.znlRun 100000 nl.1 nl.2 nd na np).1 = true ∧
+      (Mahotas.C10Feat.znlRun 100000 nl.1 nl.2 nd na np).2 = true := by
+  intro nl h
+  obtain ⟨hle, hdeg, -, -⟩ := C11_zernike_loop_pre degree nl h
+  exact C10_znl_in_bounds 100000 nl.1 nl.2 nd na np (by omega) (by exact_mod_cast hle) (by push_cast; omega) ha hp
+
+end Round4Feat
+-- ---------------------------------------------------------------------------------------------------------
+
+
+/-! ## Round 4 — Conv: compositions with the C10 theorems about `_convolve.cpp` (convolve, rank_filter, mean_filter, template_match, daubechies coefficient tables)  -/
+section Round4Conv
+-- (theorems of this package go between this line and the `end`)
+
+/-- **C11+C10 (rank_filter, median_filter).** `envH` describes the arguments of `convolve._check_rank`, `envN` those of the native
+`_convolve.rank_filter`. If the helper's guards pass and the extracted data flow holds (`Generated.checkFlowTable`: the checked
+`Bc` and `rank` are what the native call receives), then `0 ≤ rank < count_nonzero(Bc) = N2`, and for every border mode and every
+outcome of the `N2` `retrieve` calls of a pixel each `neighbours[n++]`, the `nth_element` range and `neighbours[currank]` are
+valid (`C10_rank_filter_in_bounds`); the early `return` of the kernel for an out-of-range rank (which would leave the `np.empty`
+output unwritten) is unreachable. -/
+theorem C11_rank_filter_safe (envH envN : Env) (hr : (envH "rank").kind = 2) (hb : (envH "Bc").kind = 1)
+    (h : passes Generated.guards_convolve__check_rank envH = true)
+    (hf : Flows [("Bc", "Bc", 0), ("rank", "rank", 0)] envH envN = true)
+    (isConst : Bool) (retr : List Bool) (hlen : retr.length = (envN "Bc").nnz) :
+    (0 ≤ (envN "rank").ival ∧ (envN "rank").ival < ((envN "Bc").nnz : Int)) ∧
+    Mahotas.C10Conv.allOk (Mahotas.C10Conv.rankPixelAccesses ((envN "Bc").nnz : Int) (envN "rank").ival isConst retr) = true ∧
+    (0 < (Mahotas.C10Conv.rankStores isConst retr 0).2 →
+      Mahotas.C10Conv.curRank ((envN "Bc").nnz : Int) (Mahotas.C10Conv.rankStores isConst retr 0).2 (envN "rank").ival <
+        (Mahotas.C10Conv.rankStores isConst retr 0).2) := by
+  have hp : PreRank envN := (C11_rank_guards_imply_pre envH envN hr hb h).2.1 hf
+  unfold PreRank at hp
+  obtain ⟨c1, -, -, -, -, -, c7⟩ :=
+    C10_rank_filter_in_bounds ((envN "Bc").nnz : Int) (envN "rank").ival isConst retr (by exact_mod_cast hlen) hp.1 hp.2
+  exact ⟨hp, c1, c7⟩
+
+end Round4Conv
+-- ---------------------------------------------------------------------------------------------------------
+
+
+/-! ## Round 4 — Alloc: compositions with the C10 theorems about result buffers: write sets of the kernels whose result is allocated uninitialised -/
+section Round4Alloc
+-- (theorems of this package go between this line and the `end`)
+
+/-- one row of the coverage table of native entry points: the Python name of the entry point, the C10 theorems about the index
+arithmetic of its hot loops (and the `C10_alloc_*` theorem of the loop shape that fills its result), the C11 theorems that lead from
+the extracted guards to those theorems, the level reached — `safe`: a `C11_*_safe` corollary composes guards ⇒ precondition ⇒
+bounds; `pre`: guards ⇒ precondition proved, composition with the bounds theorem not stated; `bounds`: C10 theorem only (its
+hypotheses are not derived from guards, or it has none); `partial`: a `_partial` corollary that names the gap — and what is open. -/
+structure EntryCover where
+  entry : String
+  c10 : List Lean.Name
+  c11 : List Lean.Name
+  level : String
+  note : String
+
+/-- the coverage table (hand-written; `Generated.nativeGuardTable` is regenerated from the sources on every run) -/
+def entryCover : List EntryCover := [
+  ⟨"_bbox.bbox", [``C10_bbox_in_bounds, ``C10_alloc_bbox_extrema_defined], [], "bounds", "the entry point only needs an ndarray (every rank/layout handled); no composed corollary needed"⟩,
+  ⟨"_bbox.bbox_labeled", [``C10_bbox_labeled_in_bounds, ``C10_alloc_bbox_extrema_defined], [``C11_bbox_guards_imply_pre, ``C11_bbox_safe], "safe", ""⟩,
+  ⟨"_center_of_mass.center_of_mass", [``C10_center_of_mass_in_bounds, ``C10_alloc_fill_defined], [``C11_center_of_mass_guards_imply_pre, ``C11_center_of_mass_safe], "safe", "the std::reverse post-pass over the centers table is not modelled"⟩,
+  ⟨"_convex.convexhull", [``C10_graham_in_bounds, ``C10_alloc_convexhull_output_defined], [``C11_2d_guards_imply_pre], "pre", "the pixel scan `barray.at(y,x)` is a rows loop (C10_alloc_rows_defined shape); no composed corollary"⟩,
+  ⟨"_convolve.convolve1d", [``C10_convolve1d_in_bounds, ``C10_convolve1d_python_guard, ``C10_alloc_rows_defined], [``C11_convolve1d_reach_implies_pre, ``C11_convolve1d_safe], "safe", ""⟩,
+  ⟨"_convolve.convolve", [``C10_filter_table_ok, ``C10_filter_iterator_refines, ``C10_alloc_pixel_loop_defined], [``C11_convolve_guards_imply_pre, ``C11_convolve_safe], "safe", ""⟩,
+  ⟨"_convolve.haar", [``C10_haar_in_bounds], [``C11_wavelet_safe], "safe", ""⟩,
+  ⟨"_convolve.wavelet", [``C10_wavelet_in_bounds], [``C11_wavelet_safe], "safe", "a user-supplied coefficient array: its length is `nc` of the theorem"⟩,
+  ⟨"_convolve.iwavelet", [``C10_wavelet_in_bounds], [``C11_wavelet_safe], "safe", ""⟩,
+  ⟨"_convolve.daubechies", [``C10_wavelet_in_bounds, ``C10_daubechies_tables_in_bounds], [``C11_wavelet_safe], "safe", ""⟩,
+  ⟨"_convolve.idaubechies", [``C10_wavelet_in_bounds, ``C10_daubechies_tables_in_bounds], [``C11_wavelet_safe], "safe", ""⟩,
+  ⟨"_convolve.ihaar", [``C10_haar_in_bounds], [``C11_wavelet_safe], "safe", ""⟩,
+  ⟨"_convolve.rank_filter", [``C10_filter_table_ok, ``C10_filter_iterator_refines, ``C10_rank_filter_in_bounds, ``C10_rank_filter_needs_rank_guard, ``C10_alloc_pixel_loop_defined], [``C11_rank_guards_imply_pre, ``C11_rank_filter_safe], "safe", ""⟩,
+  ⟨"_convolve.mean_filter", [``C10_filter_table_ok, ``C10_filter_iterator_refines, ``C10_alloc_pixel_loop_defined], [``C11_convolve_guards_imply_pre], "pre", "no model of its own (filter iterator + pixel loop); divisor for an empty neighbourhood not modelled"⟩,
+  ⟨"_convolve.template_match", [``C10_filter_table_ok, ``C10_filter_iterator_refines, ``C10_alloc_pixel_loop_defined], [``C11_template_match_guards_imply_pre], "pre", "the raw template pointer `template[j]`, j < N2 is not modelled"⟩,
+  ⟨"_convolve.find2d", [``C10_find2d_in_bounds, ``C10_alloc_fill_defined], [``C11_find2d_guards_imply_pre, ``C11_find2d_safe], "safe", ""⟩,
+  ⟨"_distance.dt", [``C10_dist_transform_in_bounds, ``C10_line_address, ``C10_alloc_dt_scratch_defined], [``C11_dt_guards_imply_pre, ``C11_dt_safe], "safe", "scratch arrays z, v never read before written: C10_alloc_dt_scratch_defined"⟩,
+  ⟨"_histogram.histogram", [``C10_histogram_in_bounds, ``C10_histogram_needs_unsigned], [``C11_histogram_safe], "safe", ""⟩,
+  ⟨"_histogram.otsu", [``C10_otsu_in_bounds], [``C11_otsu_safe], "safe", ""⟩,
+  ⟨"_interpolate.spline_filter1d", [``C10_spline_filter1d_in_bounds, ``C10_line_address, ``C10_interpolate_small_tables_in_bounds], [``C11_interpolate_order_guards_imply_pre], "pre", ""⟩,
+  ⟨"_interpolate.zoom_shift", [``C10_zoom_shift_in_bounds, ``C10_zoom_shift_tables_in_bounds, ``C10_interpolate_small_tables_in_bounds, ``C10_alloc_pixel_loop_defined], [``C11_zoom_shift_guards_imply_pre, ``C11_zoom_shift_safe], "safe", "float->int conversions abstracted"⟩,
+  ⟨"_labeled.label", [``C10_filter_table_ok, ``C10_filter_iterator_refines, ``C10_label_union_find_in_bounds, ``C10_find_in_bounds], [``C11_label_guards_imply_pre, ``C11_label_safe, ``C11_label_union_find_safe], "safe", "the renumbering pass (`std::map`) is a pixel loop over data[i]"⟩,
+  ⟨"_labeled.relabel", [``C10_relabel_in_bounds], [], "bounds", "std::map trusted"⟩,
+  ⟨"_labeled.is_same_labeling", [``C10_pair_scan_in_bounds], [``C11_is_same_labeling_safe_partial], "partial", "the size test is the wrapper's early `return False`, not an extracted guard"⟩,
+  ⟨"_labeled.remove_regions", [``C10_remove_regions_in_bounds, ``C10_lower_bound_in_bounds], [], "bounds", ""⟩,
+  ⟨"_labeled.borders", [``C10_filter_table_ok, ``C10_filter_iterator_refines, ``C10_alloc_fill_defined], [``C11_convolve_guards_imply_pre], "bounds", "filter iterator + stores at the pixel cursor; no model of its own"⟩,
+  ⟨"_labeled.border", [``C10_filter_table_ok, ``C10_filter_iterator_refines, ``C10_alloc_fill_defined], [], "bounds", "filter iterator + stores at the pixel cursor; no model of its own"⟩,
+  ⟨"_labeled.labeled_sum", [``C10_labeled_foldl_in_bounds, ``C10_alloc_fill_defined], [``C11_labeled_fold_safe], "safe", "the in-loop test `label >= 0 && label < maxlabel` is extracted from the source (indexGuardTable)"⟩,
+  ⟨"_labeled.labeled_max_min", [``C10_labeled_foldl_in_bounds, ``C10_alloc_fill_defined], [``C11_labeled_fold_safe], "safe", ""⟩,
+  ⟨"_labeled.slic", [``C10_slic_window_in_bounds, ``C10_slic_first_iteration_covers, ``C10_find_in_bounds], [``C11_slic_guards_imply_pre, ``C11_slic_seeds_nonempty_in_range, ``C11_slic_seed_fuel_sufficient, ``C11_slic_safe], "safe", "the stateful assignment fold, the connectivity post-pass (union-find over nlabels, priority queue) and its termination are not traced as a whole; float comparisons assumed finite (D2 < 10e20)"⟩,
+  ⟨"_morph.subm", [``C10_pair_scan_in_bounds], [``C11_subm_safe], "safe", ""⟩,
+  ⟨"_morph.erode", [``C10_filter_table_ok, ``C10_filter_iterator_refines, ``C10_fastbinary_in_bounds, ``C10_alloc_pixel_loop_defined], [``C11_morph_guards_imply_pre, ``C11_erode_dilate_safe], "safe", ""⟩,
+  ⟨"_morph.locmin_max", [``C10_filter_table_ok, ``C10_filter_iterator_refines, ``C10_alloc_fill_defined], [], "bounds", "filter iterator + conditional stores at the pixel cursor; no model of its own"⟩,
+  ⟨"_morph.regmin_max", [``C10_filter_table_ok, ``C10_filter_iterator_refines, ``C10_alloc_fill_defined, ``C10_regmin_max_in_bounds, ``C10_stack_flood_in_bounds, ``C10_position_stack_in_bounds], [], "bounds", "unconditional (every marking, every outcome of the value tests); the locmin_max part is filter iterator + stores at the pixel cursor"⟩,
+  ⟨"_morph.dilate", [``C10_filter_table_ok, ``C10_filter_iterator_refines, ``C10_fastbinary_in_bounds, ``C10_alloc_fill_defined], [``C11_morph_guards_imply_pre, ``C11_erode_dilate_safe], "safe", "the scatter writes `filter.set(rpos, j, …)` use the same offset table as the reads"⟩,
+  ⟨"_morph.disk_2d", [``C10_disk_2d_in_bounds], [``C11_disk_guards_imply_pre, ``C11_disk_2d_safe], "safe", ""⟩,
+  ⟨"_morph.close_holes", [``C10_close_holes_seeding_in_bounds, ``C10_stack_flood_in_bounds, ``C10_close_holes_flood_terminates, ``C10_position_stack_in_bounds, ``C10_alloc_fill_defined], [``C11_2d_guards_imply_pre, ``C11_close_holes_safe], "safe", ""⟩,
+  ⟨"_morph.cwatershed", [``C10_cwatershed_in_bounds, ``C10_cwatershed_table_ok], [``C11_cwatershed_guards_imply_pre], "pre", "priority queue by contract"⟩,
+  ⟨"_morph.distance_multi", [``C10_distance_multi_in_bounds, ``C10_distance_multi_terminates, ``C10_distance_multi_needs_neighbour, ``C10_position_queue_in_bounds], [], "bounds", "needs a Bc with a set non-centre element (not guarded); direct native call only (no public wrapper reaches it)"⟩,
+  ⟨"_morph.hitmiss", [``C10_hitmiss_in_bounds, ``C10_hitmiss_margin_test_sufficient], [``C11_hitmiss_guards_imply_pre, ``C11_hitmiss_safe], "safe", ""⟩,
+  ⟨"_morph.majority_filter", [``C10_majority_in_bounds, ``C10_alloc_window_defined], [``C11_majority_guards_imply_pre, ``C11_majority_safe], "safe", ""⟩,
+  ⟨"_thin.thin", [``C10_thin_in_bounds, ``C10_alloc_thin_buffer_defined], [``C11_thin_safe], "safe", "`coordinates_delta` / `fill_data` offsets come from the generated element tables"⟩,
+  ⟨"_lbp.map", [``C10_lbp_map_in_bounds], [``C11_features_guards_imply_pre, ``C11_lbp_safe_partial], "partial", "`points <= 32` and `code < 2^points` are not guarded"⟩,
+  ⟨"_surf.surf", [``C10_surf_pyramid_in_bounds, ``C10_surf_interest_points_in_bounds, ``C10_surf_descriptor_windows_in_bounds, ``C10_surf_dominant_angle_in_bounds, ``C10_surf_descriptor_index_in_bounds, ``C10_alloc_surf_records_defined], [``C11_surf_guards_imply_pre, ``C11_surf_pyramid_safe], "safe", "float->int conversions abstracted"⟩,
+  ⟨"_surf.descriptors", [``C10_surf_descriptor_windows_in_bounds, ``C10_surf_dominant_angle_in_bounds, ``C10_surf_descriptor_index_in_bounds, ``C10_alloc_surf_records_defined], [``C11_surf_descriptors_safe], "safe", "float->int conversions abstracted"⟩,
+  ⟨"_surf.interest_points", [``C10_surf_pyramid_in_bounds, ``C10_surf_interest_points_in_bounds, ``C10_alloc_surf_records_defined], [``C11_surf_guards_imply_pre, ``C11_surf_pyramid_safe], "safe", ""⟩,
+  ⟨"_surf.pyramid", [``C10_surf_pyramid_in_bounds, ``C10_surf_pyramid_guarded, ``C10_surf_pyramid_no_int_overflow], [``C11_surf_guards_imply_pre, ``C11_surf_pyramid_safe], "safe", ""⟩,
+  ⟨"_surf.integral", [``C10_integral_in_bounds], [], "bounds", ""⟩,
+  ⟨"_surf.sum_rect", [``C10_surf_sum_rect_in_bounds, ``C10_surf_sum_rect_entry_in_bounds], [], "bounds", "unconditional: every argument tuple is safe"⟩,
+  ⟨"_texture.cooccurence", [``C10_cooccurence_in_bounds, ``C10_cooccurence_assertion_off_by_one], [``C11_cooccurence_guards_imply_pre, ``C11_cooccurence_safe, ``C11_cooccurence_linked_safe, ``C11_cooccurence_index_guarded], "safe", "the in-loop tests `val >= 0`, `val2 >= 0` are extracted from the source (indexGuardTable)"⟩,
+  ⟨"_texture.compute_plus_minus", [``C10_compute_plus_minus_in_bounds, ``C10_alloc_fill_defined], [], "bounds", "the sizes 2*maxv / maxv come from haralick_features (Python)"⟩,
+  ⟨"_zernike.znl", [``C10_znl_in_bounds, ``C10_znl_fact_in_bounds, ``C10_alloc_znl_gm_defined], [``C11_features_guards_imply_pre, ``C11_zernike_loop_pre, ``C11_znl_safe], "safe", "the three array sizes are equal by construction in zernike.py (links `other`)"⟩
+]
+
+/-- **C11/C10, coverage of the native entry points.** EVERY `py_*` entry point of the current sources (the 52 rows of
+`Generated.nativeGuardTable`) has a row in `entryCover`, every row names at least one theorem, and every theorem named exists
+(the names are checked when this file is elaborated). A NEW entry point that nobody has looked at makes this `decide` fail.
+The levels: 34 entry points reach a composed `C11_*_safe` corollary, 2 a `_partial` one, 5 have guards ⇒ precondition only, 11 a
+C10 bounds theorem only; no entry point is left without an index model. -/
+theorem C11_native_entry_points_covered :
+    Generated.nativeGuardTable.all (fun e => entryCover.any fun c => c.entry == e.1) = true ∧
+    entryCover.all (fun c => !(c.c10.isEmpty && c.c11.isEmpty)) = true ∧
+    (entryCover.filter fun c => c.level == "safe").length = 34 ∧
+    (entryCover.filter fun c => c.level == "partial").length = 2 ∧
+    (entryCover.filter fun c => c.level == "pre").length = 5 ∧
+    (entryCover.filter fun c => c.level == "bounds").length = 11 ∧
+    (entryCover.filter fun c => c.c10.isEmpty).map (·.entry) = [] := by
+  decide +kernel
+
+end Round4Alloc
+-- ---------------------------------------------------------------------------------------------------------
